@@ -187,6 +187,23 @@ pub mod c19 {
                 return Verdict::Violation(format!("C19/bpp{}/{}/{}", c.bpp, if c.compress { "rle" } else { "raw" }, p.sig()), format!("{} at {}:{}", p.msg, p.file, p.line));
             }
         };
+        // the image is a function of the event alone: decoded on a fresh thread (no earlier bitmap has passed there) it
+        // must be the same as here, on a thread that has decoded thousands of others (a sample of the cases)
+        if let Some(s) = &src {
+            let h = fnv(&c.data) ^ (c.img_w as u64) << 32 ^ c.img_h as u64;
+            if h % 16 == 0 {
+                let ev1 = c.event();
+                let fresh = std::thread::spawn(move || ev1.decompress().ok()).join().ok().flatten();
+                if let Some(f) = fresh {
+                    let f: Vec<u32> = f.chunks(4).filter(|x| x.len() == 4).map(|x| u32::from_le_bytes([x[0], x[1], x[2], x[3]])).collect();
+                    if &f != s {
+                        let pos = f.iter().zip(s.iter()).position(|(a, b)| a != b).unwrap_or(0);
+                        return Verdict::Violation(format!("C19/bpp{}/{}/image-depends-on-earlier-bitmaps", c.bpp, if c.compress { "rle" } else { "raw" }), format!("{}x{} image, {} data bytes: pixel {} differs between a thread that has decoded other bitmaps before and a fresh thread", c.img_w, c.img_h, c.data.len(), pos));
+                    }
+                    rep.hist("image-independent-of-history");
+                }
+            }
+        }
         // end to end: when the data is a conformant encoding (the independent reference decoder accepts it and it
         // has no surplus bytes), what is painted must be the picture that was sent
         let reference: Option<Vec<u32>> = reference_image(c);
@@ -524,6 +541,8 @@ pub mod c20 {
         SeveralPerRecord(usize),
         /// each PDU split across n records
         SplitAcrossRecords(usize),
+        /// each PDU in two records, the first one holding only its first k bytes
+        SplitAt(usize),
         /// one PDU per record, the ciphertext written in segments cut at this offset of each record
         SegmentSplit(usize),
     }
@@ -600,7 +619,7 @@ pub mod c20 {
             format!("{}", match &self.packing {
                 Packing::OnePerRecord => "one-pdu-per-record".to_string(),
                 Packing::SeveralPerRecord(_) => "several-pdus-per-record".to_string(),
-                Packing::SplitAcrossRecords(_) => "pdu-split-across-records".to_string(),
+                Packing::SplitAcrossRecords(_) | Packing::SplitAt(_) => "pdu-split-across-records".to_string(),
                 Packing::SegmentSplit(_) => "record-split-across-segments".to_string(),
             })
         }
@@ -642,6 +661,14 @@ pub mod c20 {
                 // after the command: state(0) ppid(1) ... utime is field 14 of the line = index 11 here, stime index 12
                 f.get(11).and_then(|x| x.parse::<u64>().ok()).unwrap_or(0) + f.get(12).and_then(|x| x.parse::<u64>().ok()).unwrap_or(0)
             }
+            Err(_) => 0,
+        }
+    }
+
+    /// number of times the thread went to sleep of its own accord (blocking call, sleep, yield) so far
+    fn voluntary_switches(tid: i32) -> u64 {
+        match std::fs::read_to_string(format!("/proc/self/task/{}/status", tid)) {
+            Ok(s) => s.lines().find(|l| l.starts_with("voluntary_ctxt_switches")).and_then(|l| l.split_whitespace().nth(1)).and_then(|x| x.parse::<u64>().ok()).unwrap_or(0),
             Err(_) => 0,
         }
     }
@@ -796,7 +823,16 @@ pub mod c20 {
         let sync = Arc::new(AtomicBool::new(true));
         let (tx, rx) = mpsc::channel::<BitmapEvent>();
         let spawn_guard = SPAWN.lock().unwrap();
-        let before = thread_ids();
+        // the set of threads must be at rest before the launch (the worker pool itself may still be starting up)
+        let mut before = thread_ids();
+        for _ in 0..100 {
+            std::thread::sleep(Duration::from_millis(1));
+            let again = thread_ids();
+            if again == before {
+                break;
+            }
+            before = again;
+        }
         let handle = match super::super::launch_rdp_thread(client_fd as usize, Arc::clone(&shared), Arc::clone(&sync), tx) {
             Ok(h) => h,
             Err(_) => {
@@ -929,6 +965,15 @@ pub mod c20 {
                     expected.extend(st);
                     k += 1;
                 }
+                Packing::SplitAt(n) => {
+                    let (f, st) = bitmap_pdu(&srv, k, sc.big);
+                    let cut = (*n).min(f.len());
+                    srv.write_raw(&srv.seal(&f[..cut]));
+                    pause(&mut rng, true);
+                    srv.write_raw(&srv.seal(&f[cut..]));
+                    expected.extend(st);
+                    k += 1;
+                }
                 Packing::SegmentSplit(off) => {
                     let (f, st) = bitmap_pdu(&srv, k, sc.big);
                     let ct = srv.seal(&f);
@@ -1038,7 +1083,20 @@ pub mod c20 {
                 if point == Point::MiddleOfPdu {
                     let (f, _) = bitmap_pdu(&srv, 950, sc.big);
                     let ct = srv.seal(&f);
-                    srv.write_raw(&ct[..ct.len() / 2]);
+                    // the connection dies after 1..6 bytes of the TLS record (inside or right after its 5-byte header), in
+                    // the middle of it, or one byte before its end
+                    let cut = match sc.seed % 9 {
+                        0 => 1,
+                        1 => 2,
+                        2 => 3,
+                        3 => 4,
+                        4 => 5,
+                        5 => 6,
+                        6 => ct.len() - 1,
+                        _ => ct.len() / 2,
+                    };
+                    srv.write_raw(&ct[..cut.min(ct.len())]);
+                    trace.push(format!("cut-after-{}-record-bytes", cut));
                 }
                 unsafe { libc::shutdown(ss.as_raw_fd(), libc::SHUT_RDWR) };
                 ended = true;
@@ -1077,6 +1135,8 @@ pub mod c20 {
         let mut stuck_in_select = false;
         let mut quiet_polls = 0;
         let ticks0 = cpu_ticks(tid);
+        let switches0 = voluntary_switches(tid);
+        let mut wakeups = 0u64;
         let mut cpu_spent = 0u64;
         while t0.elapsed() < Duration::from_secs(20) {
             if handle.is_finished() {
@@ -1088,6 +1148,14 @@ pub mod c20 {
             // spinning, decided on logical quantities: read calls after end of stream, or a full second of the
             // thread's own CPU time burnt after the script ended (a healthy thread needs microseconds)
             if rae > 64 || cpu_spent > 100 {
+                spinning = true;
+                verdict_ready = true;
+                break;
+            }
+            // ... or polls it: after the session has ended a thread that is neither gone nor parked in one blocking call, but
+            // keeps going to sleep and waking up (thousands of times, a logical count) will never stop either
+            wakeups = voluntary_switches(tid).saturating_sub(switches0);
+            if ended && wakeups > 3000 {
                 spinning = true;
                 verdict_ready = true;
                 break;
@@ -1134,7 +1202,7 @@ pub mod c20 {
             // (ii) the session ended => the thread must have exited and released the shared client
             if ended {
                 if spinning {
-                    out.violations.push((format!("C20/{}/spins-on-dead-socket", class), format!("{} read calls after the transport reported end of stream / error, {} clock ticks of thread CPU time after the script ended, and the thread is still running; {} ; trace {:?}", out.reads_after_eof, cpu_spent, sc.full_class(), trace)));
+                    out.violations.push((format!("C20/{}/spins-on-dead-socket", class), format!("{} read calls after the transport reported end of stream / error, {} clock ticks of thread CPU time and {} voluntary sleeps after the script ended, and the thread is still running; {} ; trace {:?}", out.reads_after_eof, cpu_spent, wakeups, sc.full_class(), trace)));
                 } else if !out.exited {
                     out.violations.push((format!("C20/{}/thread-does-not-stop", class), format!("the session ended but the receive thread waits for further traffic (socket queue empty); {} ; trace {:?}", sc.full_class(), trace)));
                 }
@@ -1172,7 +1240,7 @@ pub mod c20 {
 
     pub fn make_scenario(class: u64, idx: u64, seed: u64) -> Scenario {
         let mut r = Rng::derive(seed, "C20", class, idx);
-        let packings = [Packing::OnePerRecord, Packing::SeveralPerRecord(2), Packing::SeveralPerRecord(3), Packing::SeveralPerRecord(8), Packing::SplitAcrossRecords(2), Packing::SplitAcrossRecords(5), Packing::SegmentSplit(1), Packing::SegmentSplit(3), Packing::SegmentSplit(5), Packing::SegmentSplit(8)];
+        let packings = [Packing::OnePerRecord, Packing::SeveralPerRecord(2), Packing::SeveralPerRecord(3), Packing::SeveralPerRecord(8), Packing::SplitAcrossRecords(2), Packing::SplitAcrossRecords(5), Packing::SplitAt(1), Packing::SplitAt(2), Packing::SplitAt(3), Packing::SegmentSplit(1), Packing::SegmentSplit(3), Packing::SegmentSplit(5), Packing::SegmentSplit(8)];
         let ends = [End::Ultimatum, End::CloseNotify, End::AbruptClose, End::GarbagePdu, End::None];
         let points = [Point::BeforeAnyUpdate, Point::BetweenPdus, Point::MiddleOfPdu, Point::AfterLast];
         let steps = [Step::InSelect, Step::AtRead, Step::AtLock];
@@ -1254,16 +1322,17 @@ pub mod c20 {
     }
 
     pub fn run(cfg: &Cfg) -> Report {
+        rdpverif::tls::prewarm(false);
         let seed = cfg.seed;
         let mut total = Report::new();
         // scenarios use real threads and real sockets: a few in parallel only
         let mut c2 = cfg.clone();
         c2.threads = cfg.threads.min(8);
         if cfg.wants(0) {
-            let n_full: u64 = 10 * 5 * 4 * 3;
+            let n_full: u64 = 13 * 5 * 4 * 3;
             let n = if cfg.quick() { 150 } else { n_full };
             let rep = par_run(&c2, n, 1, |k, rep| {
-                let idx = if cfg.quick() { (k * 4 + seed % 4) % n_full } else { k };
+                let idx = if cfg.quick() { (k * n_full / n + seed % (n_full / n).max(1)) % n_full } else { k };
                 mon::begin_case(20, 0, idx, seed);
                 let sc = make_scenario(0, idx, seed);
                 judge(&sc, 0, idx, seed, rep);
